@@ -357,7 +357,8 @@ mod mwhc {
         }
 
         fn set_up_graphs(&mut self, _n: usize, max_shard: usize) -> (f64, bool) {
-            self.seg_size = ((max_shard as f64 * 1.23) / 3.).ceil() as usize;
+            // At least one cell per segment (there might be no keys)
+            self.seg_size = (((max_shard as f64 * 1.23) / 3.).ceil() as usize).max(1);
             if self.shard_high_bits() != 0 {
                 self.seg_size = self.seg_size.next_multiple_of(128);
             }
@@ -441,7 +442,8 @@ mod mwhc {
         fn set_up_shards(&mut self, _n: usize, _eps: f64) {}
 
         fn set_up_graphs(&mut self, n: usize, _max_shard: usize) -> (f64, bool) {
-            self.seg_size = ((n as f64 * 1.23) / 3.).ceil() as usize;
+            // At least one cell per segment (there might be no keys)
+            self.seg_size = (((n as f64 * 1.23) / 3.).ceil() as usize).max(1);
             (1.23, false)
         }
 
